@@ -262,6 +262,11 @@ def loader_unit(ck, name, rule):
         ck.replays_ok += 1
         if n['verdict'] == (wv == 0):
             return ('spurious', 'native verdict agrees with the reference')
+        import C02
+        if C02.big_integer_constant(rule):
+            kf = ck.known_match('constant:integer-above-i64-max-read-as-float')
+            if kf:
+                return ('known', 'constant:integer-above-i64-max-read-as-float :: ' + kf['desc'])
         return ('violation', path, '%s: engine=%s, the numeric relation says %s on %s' % (name, n['verdict'], SOLVER_RESULT[wv], json.dumps(docj)))
     ck.obligation('loader ' + name, tr.uni, (v['res'] == T) != (want == T), sample={'rule': name}, on_sat=on_sat)
 
